@@ -213,6 +213,7 @@ func init() {
 			{ID: "C19-args", Floor: 6, Run: c19Args, Text: "[PROV] encoder arguments from one object in order; decoder results to same-named fields"},
 			{ID: "C19-single", Floor: 6, Run: c19Single, Text: "[WHO] encoder call sites and their encodings; no hand-rolled second encoder"},
 			{ID: "C19-le", Floor: 1, Run: c19LE, Text: "structure of the little-endian helper"},
+			{ID: "C19-wire", Floor: 4, Run: shared("C19-wire", c10WireUnconditional), Text: "(shared with C10-wire) the global index is put into the wire message on every path, also when it is zero"},
 			{ID: "C19-encode", Floor: 3, Run: c19Encode, Text: "[LAYOUT] bytes built by GenerateGlobalIndex on the mainnet / rollup edge; scratch buffer not reused before it is copied"},
 			{ID: "C19-decode", Floor: 3, Run: c19Decode, Text: "decoder reads the same layout: flag edge, leaf and rollup slices, left-padded big-endian helper"},
 			{ID: "C19-carry", Floor: 10, Run: func(c *core.Ctx) {
